@@ -191,8 +191,11 @@ func VerifC18Update() {
 	}
 	var poolInvalid []string // ids the pool declared invalid
 	for i := 0; i < nInvalid; i++ {
-		k := verifapi.Choose(fmt.Sprint("invalid", i), 4)
+		k := verifapi.Choose(fmt.Sprint("invalid", i), 5)
 		switch k {
+		case 4: // an enode URI without an address
+			script.update.InvalidPeers = append(script.update.InvalidPeers, "enode://"+verifapi.NodeID(1))
+			poolInvalid = append(poolInvalid, verifapi.NodeID(1))
 		case 1:
 			script.update.InvalidPeers = append(script.update.InvalidPeers, verifapi.NodeID(1))
 			poolInvalid = append(poolInvalid, verifapi.NodeID(1))
